@@ -86,7 +86,7 @@ theorem C05_applied_first (U : Universe) (s : St) (dt : String) :
 `delete_entity` was called, whatever happened to it in between (components removed one by one,
 deleted again, deleted immediately, re-created): the deletion bookkeeping never raises, every
 entity awaiting deletion is emptied — its identifier is free again — and nothing is left pending. -/
-theorem C05_process_total (U : Universe) (hn : NoRaise U) (hints : List (List Ent))
+theorem C05_process_total (U : Universe) [U.Passive] (hn : NoRaise U) (hints : List (List Ent))
     (ops : List Op) (hg : GoodHist U { sweepHints := hints } ops) (dt : String)
     (hb : (process U (run U { sweepHints := hints } ops) dt).2 ≠ .badHint) :
     (process U (run U { sweepHints := hints } ops) dt).2 = .ok ∧
@@ -132,7 +132,7 @@ theorem C05_process_total (U : Universe) (hn : NoRaise U) (hints : List (List En
 the frame (a raising `on_remove` callback, a raising processor, a `KeyError` for an entity that
 never existed), nothing is awaiting deletion afterwards, so the deletion sweep of the next frame
 has nothing to do and cannot fail. -/
-theorem C05_no_sticky_failure (U : Universe) (s : St) (dt : String)
+theorem C05_no_sticky_failure (U : Universe) [U.Passive] (s : St) (dt : String)
     (hb : (process U s dt).2 ≠ .badHint) :
     (process U s dt).1.dead = [] ∧
     ∀ s', s'.dead = [] → s'.sweepHints = [] → clearDead U s' = ({ s' with dead := [], sweepHints := [] }, .ok) := by
